@@ -389,6 +389,13 @@ func runProxyCase(c PCase) pResult {
 				mp.ExpiresAt = time.Now().Unix() + 100000
 			case "retarget":
 				mp.TargetPort = cur.port + 100
+			case "status-expired":
+				// the status value "expired" with no (or a future) expiry time: only an ACTIVE mapping routes
+				mp.Status = repos.HTTPDomainMappingStatusExpired
+			case "status-unknown":
+				mp.Status = repos.HTTPDomainMappingStatus("suspended")
+			case "status-empty":
+				mp.Status = ""
 			}
 			if err := w.repo.UpdateMapping(ctx, mp); err != nil {
 				fail("owner-update-failed", fmt.Sprintf("UpdateMapping(%s): %v", cur.id, err), si)
@@ -604,7 +611,7 @@ func genPStep(t *rapid.T, l string) PStep {
 	case 2:
 		return PStep{Do: "delete", Name: rapid.SampledFrom(nameDraw).Draw(t, l+"n"), Client: rapid.IntRange(0, 2).Draw(t, l+"c"), Stale: rapid.IntRange(0, 3).Draw(t, l+"stale") == 0, Anon: rapid.IntRange(0, 4).Draw(t, l+"anon") == 0}
 	case 3:
-		return PStep{Do: "update", Name: rapid.SampledFrom(nameDraw).Draw(t, l+"n"), Set: rapid.SampledFrom([]string{"inactive", "active", "expired", "future", "retarget"}).Draw(t, l+"set")}
+		return PStep{Do: "update", Name: rapid.SampledFrom(nameDraw).Draw(t, l+"n"), Set: rapid.SampledFrom([]string{"inactive", "active", "expired", "future", "retarget", "status-expired", "status-unknown", "status-empty"}).Draw(t, l+"set")}
 	case 4:
 		if rapid.Bool().Draw(t, l+"on") {
 			return PStep{Do: "online", Client: rapid.IntRange(0, 2).Draw(t, l+"c")}
@@ -680,7 +687,7 @@ func TestProxyHistoriesTimePasses(t *testing.T) {
 // by client A and the other by client B.
 func TestHostSpellingProduct(t *testing.T) {
 	idx := 0
-	states := []string{"active", "inactive", "expired", "deleted", "none"}
+	states := []string{"active", "inactive", "expired", "status-expired", "status-unknown", "status-empty", "deleted", "none"}
 	// (name under test, other name): all-lower-case names, and names that differ from the
 	// other one only by case (the other always owned, active, by a different client)
 	pairs := [][2]int{{0, 1}, {4, 5}, {5, 4}, {3, 0}, {6, 2}}
@@ -708,7 +715,7 @@ func TestHostSpellingProduct(t *testing.T) {
 					switch state {
 					case "active":
 						pre = append(pre, PStep{Do: "create", Name: pair[0], Client: 0})
-					case "inactive", "expired":
+					case "inactive", "expired", "status-expired", "status-unknown", "status-empty":
 						pre = append(pre, PStep{Do: "create", Name: pair[0], Client: 0}, PStep{Do: "update", Name: pair[0], Set: state})
 					case "deleted":
 						pre = append(pre, PStep{Do: "create", Name: pair[0], Client: 0}, PStep{Do: "delete", Name: pair[0], Client: 0})
